@@ -398,6 +398,18 @@ func main() {
 		addRepo("outer")
 		addRepo(filepath.Join("outer", "vendor", "inner"))
 		addRepo(filepath.Join("outer", "vendor", "inner", "deep", "innermost"))
+		// a repository (nested in `outer`) whose .github/workflows is a symbolic link to a directory
+		// elsewhere in it, and whose .git is a file (worktree / submodule layout)
+		{
+			root := filepath.Join(base, "outer", "linked")
+			hx.Must(os.MkdirAll(filepath.Join(root, "ci", "workflows"), 0o755))
+			hx.Must(os.MkdirAll(filepath.Join(root, ".github"), 0o755))
+			write(filepath.Join(root, ".git"), "gitdir: ../.git/worktrees/linked\n")
+			write(filepath.Join(root, "ci", "workflows", "w.yaml"), "on: push\njobs:\n  a:\n    runs-on: ubuntu-latest\n    steps:\n      - run: echo\n")
+			hx.Must(os.Symlink(filepath.Join("..", "ci", "workflows"), filepath.Join(root, ".github", "workflows")))
+			t.roots = append(t.roots, root)
+			t.files = append(t.files, filepath.Join(root, ".github", "workflows", "w.yaml"), filepath.Join(root, "ci", "workflows", "w.yaml"))
+		}
 		// files outside of any repository
 		o := filepath.Join(base, "norepo", "a.yaml")
 		write(o, "on: push\n")
@@ -537,7 +549,7 @@ func main() {
 		}
 	}
 	sum.Nontrivial = nontrivial
-	sum.Samples = append(sum.Samples, map[string]interface{}{"attribution_roots": []string{"repo", "Repo", "repo2", "repo-extra", "outer", "outer/vendor/inner", "outer/vendor/inner/deep/innermost"}})
+	sum.Samples = append(sum.Samples, map[string]interface{}{"attribution_roots": []string{"repo", "Repo", "repo2", "repo-extra", "outer", "outer/vendor/inner", "outer/vendor/inner/deep/innermost", "outer/linked (workflows directory is a symbolic link, .git is a file)"}})
 	sum.Write(filepath.Join(*out, "summary.json"))
 	os.RemoveAll(scratch)
 }
